@@ -15,6 +15,8 @@ from __future__ import annotations
 
 import ast
 
+from .core import AnalysisError
+from .core import norm
 from .layerx import EV
 from .layerx import is_ev
 from .layerx import LayerSpec
@@ -37,6 +39,7 @@ REFINEMENTS = [
     "GetHttpConnection completes with exactly one of (connection, err)",
     "flow.websocket is only set when the response status is 101 (send_response computes is_websocket that way)",
     "an addon may change flow.response / flow.request.stream / flow.response.stream during any hook (havoc at hook yields)",
+    "flow.request is an http.Request and flow.response (when set) an http.Response, never the other (HTTPFlow's annotations)",
 ]
 
 STATE_NAMES = (
@@ -52,13 +55,25 @@ STATE_NAMES = (
 )
 
 
-def side_of(expr) -> str:
-    ch = attr_chain(expr)
+def side_of_chain(ch: str) -> str:
     if ch.endswith("context.client") or ch.endswith(".client"):
         return "client"
     if ch.endswith("context.server") or ch.endswith(".server") or ch.endswith("server_conn"):
         return "server"
     return ch or "?"
+
+
+def side_of(expr) -> str:
+    return side_of_chain(attr_chain(expr))
+
+
+BUFS = {"self.request_body_buf": "req", "self.response_body_buf": "resp"}
+STATE_ATTRS = ("self.client_state", "self.server_state", "self._handle_event")
+STREAM_ATTRS = ("self.flow.request.stream", "self.flow.response.stream")
+
+
+def _is_ref(v):
+    return isinstance(v, tuple) and len(v) == 2 and v[0] == "r"
 
 
 class HttpStreamSpec(LayerSpec):
@@ -74,6 +89,11 @@ class HttpStreamSpec(LayerSpec):
         "self.flow.response.stream",
     )
     dispatch_attrs = ("self.client_state", "self.server_state")
+    # the body buffers and the flow's response / websocket are objects: their tracked value is a flag (non-empty / set), expressions
+    # evaluate to a reference, so locals and helper parameters bound to them are aliases (`buffered = self._body_buf(request)`)
+    object_attrs = ("self.request_body_buf", "self.response_body_buf", "self.flow.response", "self.flow.websocket")
+    nullable_attrs = ("self.flow.response", "self.flow.websocket")
+    typed_refs = {"self.flow.request": ("Request", ("Response",)), "self.flow.response": ("Response", ("Request",))}
     max_depth = 9
     label_inlined_call = True
 
@@ -83,6 +103,60 @@ class HttpStreamSpec(LayerSpec):
     def extra_modules(self):
         return [self.model.module("mitmproxy/proxy/layers/http/_events.py"), self.model.module("mitmproxy/proxy/events.py")]
 
+    # ---- value-based naming of what a statement does
+    def callee_name(self, func, st, depth) -> str:
+        """class / function name a call goes to; a local bound to a class (`hook = A if request else B; yield hook(flow)`) is resolved"""
+        if isinstance(func, ast.Name):
+            v = self.value(func, st, depth)
+            if _is_ref(v):
+                return v[1].rsplit(".", 1)[-1]
+            if st.has(f"{depth}:{func.id}") or func.id in self._fn_locals(func):
+                raise AnalysisError(f"call through the local `{func.id}` whose target is not decidable here ({norm(func._parent) if hasattr(func, '_parent') else func.id})")
+        return last_attr(func)
+
+    def side(self, expr, st, depth) -> str:
+        v = self.value(expr, st, depth)
+        if _is_ref(v):
+            return side_of_chain(v[1])
+        return side_of(expr)
+
+    @staticmethod
+    def _arg(call, i, kw):
+        if len(call.args) > i:
+            return call.args[i]
+        for k in call.keywords:
+            if k.arg == kw:
+                return k.value
+        return None
+
+    def command_label(self, v, st, d) -> tuple:
+        """events of yielding the command constructed by the call ``v``"""
+        name = self.callee_name(v.func, st, d)
+        if name.endswith("Hook"):
+            return (("hook", name),)
+        if name == "SendHttp" and self._arg(v, 1, "connection") is not None:
+            a0 = self._arg(v, 0, "event")
+            if isinstance(a0, ast.Call):
+                kind = self.callee_name(a0.func, st, d)
+            else:
+                val = self.value(a0, st, d)
+                kind = val[1] if is_ev(val) else ("event" if isinstance(a0, ast.Name) else "?")
+            return (("send", kind, self.side(self._arg(v, 1, "connection"), st, d)),)
+        if name == "GetHttpConnection":
+            return (("getconn",),)
+        if name == "DropStream":
+            return (("drop",),)
+        if name == "OpenConnection":
+            return (("open",),)
+        if name in ("CloseConnection", "CloseTcpConnection"):
+            c = self._arg(v, 0, "connection")
+            return (("close", self.side(c, st, d) if c is not None else "?"),)
+        if name == "Log":
+            return ()
+        return (("yield", name),)
+
+    COMMAND_NAMES = ("SendHttp", "GetHttpConnection", "DropStream", "OpenConnection", "CloseConnection", "CloseTcpConnection", "Log")
+
     # ---- events
     def events(self, node, st):
         out = []
@@ -91,114 +165,110 @@ class HttpStreamSpec(LayerSpec):
             return [("ck",)]
         if isinstance(node, ast.Call) and attr_chain(node.func) == "self.check_invalid":
             return [("ci",)]
+        d = self.ev_depth(node, st)
         for n in eval_order(node):
             if isinstance(n, ast.Yield):
                 v = n.value
                 if isinstance(v, ast.Call):
-                    name = last_attr(v.func)
-                    if name.endswith("Hook"):
-                        out.append(("hook", name))
-                    elif name == "SendHttp" and len(v.args) >= 2:
-                        a0 = v.args[0]
-                        if isinstance(a0, ast.Call):
-                            kind = last_attr(a0.func)
-                        elif isinstance(a0, ast.Name):
-                            kind = "event"
-                            for k, val in st.env:
-                                if k.endswith(":" + a0.id) and is_ev(val):
-                                    kind = val[1]
-                        else:
-                            kind = "?"
-                        out.append(("send", kind, side_of(v.args[1])))
-                    elif name == "GetHttpConnection":
-                        out.append(("getconn",))
-                    elif name == "DropStream":
-                        out.append(("drop",))
-                    elif name == "OpenConnection":
-                        out.append(("open",))
-                    elif name in ("CloseConnection", "CloseTcpConnection"):
-                        out.append(("close", side_of(v.args[0]) if v.args else "?"))
-                    elif name == "Log":
-                        pass
-                    else:
-                        out.append(("yield", name))
+                    out.extend(self.command_label(v, st, d))
                 elif v is not None:
-                    out.append(("yield_cmd",))
+                    val = self.value(v, st, d)
+                    if isinstance(val, tuple) and val and val[0] == "cmd":
+                        out.extend(val[1])  # a command object built earlier (`cmd = SendHttp(..); yield cmd`)
+                    else:
+                        out.append(("yield_cmd",))
             elif isinstance(n, ast.YieldFrom):
-                if isinstance(n.value, ast.Call) and attr_chain(n.value.func) == "self.child_layer.handle_event":
+                if isinstance(n.value, ast.Call) and self.chain(n.value.func, st, d) == "self.child_layer.handle_event":
                     out.append(("child_start",))
-        if isinstance(node, ast.Assign):
-            for t in node.targets:
-                ch = attr_chain(t)
-                if ch in ("self.client_state", "self.server_state", "self._handle_event"):
-                    out.append(("set", ch, attr_chain(node.value) or "?"))
+        if isinstance(node, (ast.Assign, ast.AnnAssign)) and node.value is not None:
+            for t in node.targets if isinstance(node, ast.Assign) else [node.target]:
+                ch = self.chain(t, st, d) if isinstance(t, ast.Attribute) else ""
+                if ch in STATE_ATTRS:
+                    out.append(("set", ch, self.chain(node.value, st, d) or "?"))
                 elif ch == "self.flow.live":
-                    out.append(("live", bool(getattr(node.value, "value", None))))
+                    v = self.value(node.value, st, d)
+                    if not is_const(v):
+                        raise AnalysisError(f"flow.live is set to a value that is not decidable here: {norm(node)}")
+                    out.append(("live", bool(v[1])))
                 elif ch == "self.flow.error":
                     out.append(("error:=",))
                 elif ch == "self.flow.response":
                     out.append(("response:=",))
-                elif ch in ("self.flow.request.stream", "self.flow.response.stream"):
-                    out.append(("stream:=", "req" if "request" in ch else "resp", getattr(node.value, "value", "?")))
+                elif ch in STREAM_ATTRS:
+                    v = self.value(node.value, st, d)
+                    out.append(("stream:=", "req" if "request" in ch else "resp", v[1] if is_const(v) else "?"))
         elif isinstance(node, ast.AugAssign):
-            ch = attr_chain(node.target)
-            if ch == "self.request_body_buf":
-                out.append(("buf+", "req"))
-            elif ch == "self.response_body_buf":
-                out.append(("buf+", "resp"))
-        elif isinstance(node, ast.Expr) and isinstance(node.value, ast.Call):
-            ch = attr_chain(node.value.func)
-            if ch == "self.request_body_buf.clear":
-                out.append(("bufclear", "req"))
-            elif ch == "self.response_body_buf.clear":
-                out.append(("bufclear", "resp"))
+            ch = self.chain(node.target, st, d)
+            if ch in BUFS:
+                out.append(("buf+", BUFS[ch]))
+        elif isinstance(node, ast.Expr) and isinstance(node.value, ast.Call) and isinstance(node.value.func, ast.Attribute) and node.value.func.attr == "clear":
+            ch = self.chain(node.value.func.value, st, d)
+            if ch in BUFS:
+                out.append(("bufclear", BUFS[ch]))
         return out
 
     # ---- effects (flags)
+    def store(self, ch, v, st, value_expr=None):
+        """effect of `<ch> = <value v>` on the tracked state"""
+        if ch in ("self.flow.response", "self.flow.websocket"):
+            return st.set(ch, C(False) if v == C(None) else C(True))
+        if ch in STREAM_ATTRS:
+            return st.set(ch, v if is_const(v) else UNKNOWN)
+        if ch == "self.flow":
+            # new flow object: response/websocket unset for fresh flows, unknown for replayed ones
+            fresh = isinstance(value_expr, ast.Call)
+            st = st.set("self.flow.response", C(False) if fresh else UNKNOWN)
+            st = st.set("self.flow.websocket", C(False))
+            st = st.set("self.flow.request.stream", UNKNOWN)
+            st = st.set("self.flow.response.stream", UNKNOWN)
+            return st
+        if ch == "self.flow.request":
+            return st.set("self.flow.request.stream", UNKNOWN)
+        if ch in BUFS:
+            return st.set(ch, UNKNOWN)  # a new buffer object of unknown content
+        if ch in self.tracked:
+            return st.set(ch, v)
+        return st
+
+    def bind(self, target, value_expr, st, depth, value=None):
+        if isinstance(target, ast.Attribute):
+            v = value if value is not None else self.value(value_expr, st, depth)
+            ch = self.chain(target, st, depth)
+            return self.store(ch, v, st, value_expr) if ch else st
+        return LayerSpec.bind(self, target, value_expr, st, depth, value=value)
+
     def effect(self, stmt, st, depth):
-        if isinstance(stmt, ast.Expr) and isinstance(stmt.value, ast.Yield) and isinstance(stmt.value.value, ast.Call):
-            if last_attr(stmt.value.value.func).endswith("Hook"):
+        if isinstance(stmt, ast.Expr) and isinstance(stmt.value, ast.Yield) and stmt.value.value is not None:
+            y = stmt.value.value
+            if isinstance(y, ast.Call):
+                is_hook = self.callee_name(y.func, st, depth).endswith("Hook")
+            else:
+                val = self.value(y, st, depth)
+                is_hook = isinstance(val, tuple) and bool(val) and val[0] == "cmd" and any(e[0] == "hook" for e in val[1])
+            if is_hook:
                 # an addon may do anything to the flow while the hook runs
                 for k in ("self.flow.request.stream", "self.flow.response.stream", "self.flow.response"):
                     st = st.set(k, UNKNOWN)
                 return st
         if isinstance(stmt, ast.AugAssign):
-            ch = attr_chain(stmt.target)
-            if ch in ("self.request_body_buf", "self.response_body_buf"):
-                return st.set(ch, C(True))
-        if isinstance(stmt, ast.Expr) and isinstance(stmt.value, ast.Call):
-            ch = attr_chain(stmt.value.func)
-            if ch in ("self.request_body_buf.clear", "self.response_body_buf.clear"):
-                return st.set(ch[: -len(".clear")], C(False))
-        if isinstance(stmt, ast.Assign):
-            for t in stmt.targets:
-                ch = attr_chain(t)
-                if ch in ("self.flow.response", "self.flow.websocket"):
-                    isnone = isinstance(stmt.value, ast.Constant) and stmt.value.value is None
-                    v = C(False) if isnone else C(True)
-                    if ch == "self.flow.response" and attr_chain(stmt.value) == "event.response":
-                        v = C(True)
-                    return st.set(ch, v)
-                if ch in ("self.flow.request.stream", "self.flow.response.stream"):
-                    v = self.value(stmt.value, st, depth)
-                    return st.set(ch, v if is_const(v) else UNKNOWN)
-                if ch == "self.flow":
-                    # new flow object: response/websocket unset for fresh flows, unknown for replayed ones
-                    fresh = isinstance(stmt.value, ast.Call)
-                    st = st.set("self.flow.response", C(False) if fresh else UNKNOWN)
-                    st = st.set("self.flow.websocket", C(False))
-                    st = st.set("self.flow.request.stream", UNKNOWN)
-                    st = st.set("self.flow.response.stream", UNKNOWN)
-                    return st
-                if ch == "self.flow.request":
-                    st = st.set("self.flow.request.stream", UNKNOWN)
+            ch = self.chain(stmt.target, st, depth)
+            if ch in BUFS:
+                return st.set(ch, C(True))  # in-place append: a local alias keeps denoting the buffer
+        if isinstance(stmt, ast.Expr) and isinstance(stmt.value, ast.Call) and isinstance(stmt.value.func, ast.Attribute) and stmt.value.func.attr == "clear":
+            ch = self.chain(stmt.value.func.value, st, depth)
+            if ch in BUFS:
+                return st.set(ch, C(False))
         return LayerSpec.effect(self, stmt, st, depth)
 
     def value(self, expr, st, depth):
-        ch = attr_chain(expr)
-        if ch in ("self.flow.request.stream", "self.flow.response.stream", "self.flow.response", "self.flow.websocket"):
-            return st.get(ch) if st.has(ch) else UNKNOWN
         # tuple results of GetHttpConnection are correlated; err truthy <=> connection None (both forks kept)
+        if isinstance(expr, ast.Call) and not isinstance(getattr(expr, "_parent", None), ast.Yield):
+            name = last_attr(expr.func)
+            if isinstance(expr.func, ast.Name) and st.has(f"{depth}:{expr.func.id}"):
+                fv = st.get(f"{depth}:{expr.func.id}")
+                name = fv[1].rsplit(".", 1)[-1] if _is_ref(fv) else ""
+            if name.endswith("Hook") or name in self.COMMAND_NAMES:
+                return ("cmd", self.command_label(expr, st, depth))  # a command object, labelled where it is built
         return LayerSpec.value(self, expr, st, depth)
 
     def raises_into(self, stmt, handler_names, st):
@@ -211,7 +281,7 @@ class HttpStreamSpec(LayerSpec):
 
     def decide_extra(self, cond, st, depth):
         # named refinement: flow.websocket is only set under `status_code == 101 and ...` (send_response)
-        if isinstance(cond, ast.Compare) and attr_chain(cond.left) == "self.flow.response.status_code" and len(cond.ops) == 1:
+        if isinstance(cond, ast.Compare) and self.chain(cond.left, st, depth) == "self.flow.response.status_code" and len(cond.ops) == 1:
             c = cond.comparators[0]
             if isinstance(cond.ops[0], ast.Eq) and isinstance(c, ast.Constant) and c.value == 101 and st.get("self.flow.websocket") == C(True):
                 return True
@@ -223,7 +293,7 @@ class HttpStreamSpec(LayerSpec):
 
     # ---- re-dispatch through handle_event(RequestData(...)) inside check_body_size
     def inline_special(self, call, st, depth):
-        if call.args and isinstance(call.args[0], ast.Call):
+        if call.args and (isinstance(call.args[0], ast.Call) or is_ev(self.value(call.args[0], st, depth))):
             r = self.model.method(self.rel, self.cls, "_handle_event")
             return r[1] if r else None
         return None
